@@ -769,13 +769,13 @@ mod store {
         let now = h.get(b("k2"));
         drop(h); drop(kv); std::thread::sleep(std::time::Duration::from_millis(30));
         match conf(dir.path(), 1 << 30).open() {
-            Err(e) => report("torn-append", "C20,C03", hist, format!("reopen failed: {}", e), "the directory can be opened and k2 reads v2"),
+            Err(e) => report("torn-append", "C20", hist, format!("reopen failed: {}", e), "the directory can be opened and k2 reads v2"),
             Ok(kv2) => {
                 let h2 = kv2.get_handle();
                 let after = h2.get(b("k2")).map(|o| o.map(|v| String::from_utf8_lossy(&v).to_string()));
                 let a = h2.get(b("a")).map(|o| o.map(|v| String::from_utf8_lossy(&v).to_string()));
                 if !matches!(&after, Ok(Some(v)) if v == "v2") || !matches!(&a, Ok(Some(v)) if v == "1") {
-                    report("torn-append", "C20,C03", hist, format!("before restart get k2 = {:?}; after restart get k2 = {:?}, get a = {:?}", now.map(|o| o.is_some()), after, a), "k2 = v2 and a = 1 after the restart");
+                    report("torn-append", "C20", hist, format!("before restart get k2 = {:?}; after restart get k2 = {:?}, get a = {:?}", now.map(|o| o.is_some()), after, a), "k2 = v2 and a = 1 after the restart");
                 }
             }
         }
